@@ -339,5 +339,5 @@ pub fn fixed_preset(name: &str) -> Option<MSchema> {
         _ => return None,
     }
     let build = if ctx { vec![V(MVar::BumpedBranch), V(MVar::Distance), V(MVar::BumpedCommitHashShort)] } else { vec![] };
-    Some(MSchema { core, extra_core: extra, build })
+    Some(MSchema { core, extra_core: extra, build, precedence: vec![] })
 }
